@@ -15,7 +15,7 @@ def wstateToJson (st : WState) : Json :=
     ("names", Json.arr (st.nodes.map (fun r => charsToJson (r.map (·.1)).flatten)).toArray),
     ("recipes", Json.arr (st.nodes.map recipeToJson).toArray),
     ("edges", Json.arr (st.edges.map (fun (p, c, l) => Json.arr #[Json.num p, Json.num c, charsToJson l])).toArray),
-    ("full", Json.bool st.full)]
+    ("full", Json.bool st.full), ("components", Json.num (components st))]
 
 def frontToJson (r : Model.FrontResult) : Json :=
   match r with
